@@ -49,6 +49,10 @@ type Manager struct {
 	userLimits                map[string]map[string]*LimitConfig // Holds queue path * user limit config
 	groupLimits               map[string]map[string]*LimitConfig // Holds queue path * group limit config
 	events                    *ugmEvents
+	// protects the userWildCardLimitsConfig reference for getUserWildCardLimitsConfig: that is called when a queue
+	// tracker is created, with or without the manager lock held, and can thus not take the manager lock itself.
+	// Always taken after the manager lock, never the other way around.
+	wildCardLock locking.RWMutex
 	locking.RWMutex
 }
 
@@ -579,7 +583,9 @@ func (m *Manager) replaceLimitConfigs(newUserLimits map[string]map[string]*Limit
 	defer m.Unlock()
 	m.userLimits = newUserLimits
 	m.groupLimits = newGroupLimits
+	m.wildCardLock.Lock()
 	m.userWildCardLimitsConfig = newUserWildCardLimitsConfig
+	m.wildCardLock.Unlock()
 	m.groupWildCardLimitsConfig = newGroupWildCardLimitsConfig
 	m.configuredGroups = newConfiguredGroups
 }
@@ -641,6 +647,8 @@ func (m *Manager) getUserTracker(user string) *UserTracker {
 }
 
 func (m *Manager) getUserWildCardLimitsConfig(queuePath string) *LimitConfig {
+	m.wildCardLock.RLock()
+	defer m.wildCardLock.RUnlock()
 	if config, ok := m.userWildCardLimitsConfig[queuePath]; ok {
 		return config
 	}
@@ -709,7 +717,9 @@ func (m *Manager) ClearGroupTrackers() {
 func (m *Manager) ClearConfigLimits() {
 	m.Lock()
 	defer m.Unlock()
+	m.wildCardLock.Lock()
 	m.userWildCardLimitsConfig = make(map[string]*LimitConfig)
+	m.wildCardLock.Unlock()
 	m.groupWildCardLimitsConfig = make(map[string]*LimitConfig)
 	m.configuredGroups = make(map[string][]string)
 	m.userLimits = make(map[string]map[string]*LimitConfig)
